@@ -484,6 +484,11 @@ const (
 	vC12SigBytesAfterQuote   = "string-field-bytes-after-closing-quote"
 	vC12SigBinaryLoneQuote   = "binary-point-lone-quote-panics-stringvalue"
 	vC12SigEmptyFieldKey     = "empty-field-key-after-tab-or-nul"
+	vC12SigKeyBackslashSpace = "key-double-backslash-before-space"
+	vC12SigNewlineInKey      = "newline-in-key-after-leading-space"
+	vC12SigMalformedFields   = "malformed-field-section-accepted"
+	vC12SigBackslashJoins    = "trailing-backslash-joins-next-line"
+	vC12SigCommentSwallows   = "comment-with-quote-swallows-following-lines"
 )
 
 // vC12HasEvenBackslashEquals reports the text shape behind the first known finding: an even,
@@ -552,15 +557,143 @@ func vC12EmptyFieldKey(p Point) bool {
 	return bad
 }
 
+// vC12KeyBackslashSpace: the series key holds an even, non-zero run of backslashes directly in
+// front of a space. The key scanners treat that space as escaped (previous byte is a
+// backslash), the line splitter pairs the backslashes up and treats it as the separator in
+// front of the fields, so it starts interpreting '=' ',' '"' too early; where a line ends then
+// depends on the order of the tags, and String() of the accepted point can split differently.
+func vC12KeyBackslashSpace(key []byte) bool {
+	for i := 0; i < len(key); i++ {
+		if key[i] != ' ' {
+			continue
+		}
+		n := 0
+		for j := i - 1; j >= 0 && key[j] == '\\'; j-- {
+			n++
+		}
+		if n >= 2 && n%2 == 0 {
+			return true
+		}
+	}
+	return false
+}
+
+// vC12NewlineInKey: the series key holds a newline that is not preceded by a backslash. That
+// can only happen when the line splitter was in "inside a string value" state while still in
+// the key, which it enters when the line starts with a space (the leading space is taken for
+// the separator in front of the fields). String() of such a point has no leading space and
+// is split at the newline.
+func vC12NewlineInKey(key []byte) bool {
+	for i := 0; i < len(key); i++ {
+		if key[i] == '\n' && (i == 0 || key[i-1] != '\\') {
+			return true
+		}
+	}
+	return false
+}
+
+// vC12StrictFields reads a raw field section with the strict grammar
+//   fields = field *("," field) ; field = key "=" value ; value = string / number / boolean
+// and returns "" when it matches, else the reason it does not. A backslash in a key always
+// takes the next byte with it; a doubled backslash directly in front of a separator is
+// reported, because the scanners of the code under test disagree on what it means.
+func vC12StrictFields(f []byte) string {
+	i := 0
+	for {
+		ks := i
+		for i < len(f) {
+			c := f[i]
+			if c == '\\' {
+				if i+1 >= len(f) {
+					return "backslash-at-end"
+				}
+				if f[i+1] == '\\' && i+2 < len(f) && (f[i+2] == '=' || f[i+2] == ',' || f[i+2] == ' ') {
+					return "double-backslash-before-separator"
+				}
+				i += 2
+				continue
+			}
+			if c == '=' || c == ',' || c == ' ' {
+				break
+			}
+			if c == '\n' {
+				return "newline-in-field-key"
+			}
+			i++
+		}
+		if i == ks {
+			return "empty-key"
+		}
+		if i >= len(f) || f[i] != '=' {
+			return "key-without-equals"
+		}
+		i++
+		if i >= len(f) {
+			return "no-value"
+		}
+		if f[i] == '"' {
+			i++
+			closed := false
+			for i < len(f) {
+				if f[i] == '\\' && i+1 < len(f) {
+					i += 2
+					continue
+				}
+				if f[i] == '"' {
+					closed = true
+					i++
+					break
+				}
+				i++
+			}
+			if !closed {
+				return "unterminated-string"
+			}
+			if i < len(f) && f[i] != ',' {
+				return "bytes-after-quote"
+			}
+		} else {
+			vs := i
+			for i < len(f) && f[i] != ',' {
+				i++
+			}
+			if _, ok := vC12RefValue(string(f[vs:i])); !ok {
+				return "bad-value-token"
+			}
+		}
+		if i >= len(f) {
+			return ""
+		}
+		i++
+		if i >= len(f) {
+			return "trailing-comma"
+		}
+	}
+}
+
 // vC12KnownShape returns the signature of the known finding an accepted point falls under, or "".
 func vC12KnownShape(p Point) string {
-	if vC12EmptyFieldKey(p) {
-		return vC12SigEmptyFieldKey
+	if vC12KeyBackslashSpace(p.Key()) {
+		return vC12SigKeyBackslashSpace
 	}
-	if vC12BytesAfterQuote(p) {
+	if vC12NewlineInKey(p.Key()) {
+		return vC12SigNewlineInKey
+	}
+	pp, ok := p.(*point)
+	if !ok {
+		return ""
+	}
+	switch vC12StrictFields(pp.fields) {
+	case "", "bad-value-token": // a bad value token is left to the oracle: it must never be accepted
+		return ""
+	case "newline-in-field-key":
+		return vC12SigNewlineInKey
+	case "empty-key":
+		return vC12SigEmptyFieldKey
+	case "bytes-after-quote":
 		return vC12SigBytesAfterQuote
 	}
-	return ""
+	return vC12SigMalformedFields
 }
 
 // ---------------------------------------------------------------- strict reference for unquoted values
